@@ -14,9 +14,9 @@ import (
 func TestVerifC10KeySchedule(t *testing.T) {
 	r := &c10Rand{s: c10Seed() ^ 0xc1040}
 	out := newC10Out(t)
-	n := 45
+	n := 36
 	if c10Thorough() {
-		n = 2000
+		n = 800
 	}
 	type hm struct {
 		code int
